@@ -111,6 +111,16 @@ func genAffinityPlan(seed uint64, tier string) *Plan {
 		p.Ops = append(p.Ops, op)
 	}
 	if g.chance(12) {
+		// two clients whose source ports are P and 10*P+d (one address is a prefix of the other, as text); the first
+		// hangs up while the second has a transaction open
+		P := 3000 + g.intn(3000)
+		q := Op{Kind: "tx", ID: g.nextID(), Conn: "kp1", SrcIP: clientIP, DelayUs: 2500, S: map[string]string{"method": "OPTIONS", "prov": ""},
+			I: map[string]int{"final": 200, "d1": 300, "d2": 300, "rport": 1, "srcPort": P}}
+		r := Op{Kind: "tx", ID: g.nextID(), Conn: "kp2", SrcIP: clientIP, DelayUs: 5000, S: map[string]string{"method": "INVITE", "prov": "180"},
+			I: map[string]int{"final": 200, "d1": 30000, "d2": 20000, "rport": 1, "srcPort": P*10 + g.intn(10)}}
+		p.Ops = append(p.Ops, q, r, Op{Kind: "hangup", ID: g.nextID(), Conn: "kp1", DelayUs: 15000})
+	}
+	if g.chance(12) {
 		// a transaction that is ringing while its connection turns an hour old
 		id := g.nextID()
 		op := Op{Kind: "tx", ID: id, Conn: "k0", SrcIP: clientIP, DelayUs: int64(g.rng(3530, 3598)) * 1000000,
@@ -182,7 +192,7 @@ func execAffinity(t *testing.T, p *Plan) *Result {
 				continue
 			}
 			w.K.After(time.Duration(op.DelayUs)*time.Microsecond, "tx", func() {
-				c, err := w.TCPConnTo(op.Conn, op.SrcIP, 0, hostPort(l.Addr, l.TCP))
+				c, err := w.TCPConnTo(op.Conn, op.SrcIP, op.I["srcPort"], hostPort(l.Addr, l.TCP))
 				if err != nil {
 					w.K.Failures = append(w.K.Failures, "harness: connect: "+err.Error())
 					return
